@@ -319,7 +319,25 @@ def _mon_c11_reopen(h, obs):
 
 def _mon_c11_crash(h, obs):
     hits = []
+    # which heights of the chain so far changed the state: an EMPTY block above height 1 is an idle block (it writes nothing), so the
+    # "data of block n" the state store holds at height c is that of the last block at or below c that was not idle
+    cur, writing = 0, set()
+
+    def idle(op_, hgt):
+        return "txs=-" in op_.split() and hgt > 1
     for i, (op, o) in enumerate(zip(h.ops, obs)):
+        if op.startswith("persist") and (o or "").startswith("ok"):
+            cur += 1
+            writing = {x for x in writing if x < cur}
+            if not idle(op, cur):
+                writing.add(cur)
+        elif op.startswith("rollback") and o == "ok":
+            t = int(op.split()[1])
+            if t <= cur:
+                cur = t
+                writing = {x for x in writing if x <= t}
+        elif op in ("open", "reset"):
+            cur, writing = 0, set()
         if not op.startswith("crash"):
             continue
         kvs = dict(x.split("=", 1) for x in op.split()[1:] if "=" in x)
@@ -348,16 +366,21 @@ def _mon_c11_crash(h, obs):
             break
         skh, _, skb = (sk or "").partition("/")
         skb, _, skx = skb.partition("/")
-        if sk is not None and c == s and skx and skx != (str(c) if c > 0 else "-"):
+        # the block in commit is block hh; the ledger reopened at c (hh - 1 or hh)
+        w_now = set(writing) | ({hh} if (c == hh and not idle(op, hh)) else set())
+        cur = c
+        writing = {x for x in w_now if x <= c}
+        last_w = max([x for x in writing], default=0)
+        if sk is not None and c == s and skx and skx != (str(last_w) if last_w > 0 else "-"):
             hits.append(Hit("C11/state-content-not-at-height/raw-byte-key",
                             f"after a crash ({op.split()[0]} {mask}) in block {hh} the ledger reopens at height {c} but the raw-byte storage key every block writes holds the value of block {skx}", op))
             break
-        if sk is not None and c == s and skh != (str(c) if c > 0 else "-"):
+        if sk is not None and c == s and skh != (str(last_w) if last_w > 0 else "-"):
             hits.append(Hit("C11/state-content-ahead-of-state-height" if skh.isdigit() and int(skh) > c else "C11/state-content-not-at-height",
                             f"after a crash ({op.split()[0]} {mask}) in block {hh} the ledger reopens at height {c} but the state store holds the data of block {skh}", op))
             break
         # the account record: block 1 and every third block set the balance of a0 to 1000 + height, the others only touch its storage
-        want_bal = max([1000 + x for x in range(1, c + 1) if x == 1 or x % 3 == 0], default=0)
+        want_bal = max([1000 + x for x in writing if x == 1 or x % 3 == 0], default=0)
         if sk is not None and skb != "" and c == s and skb != str(want_bal):
             hits.append(Hit("C11/account-record-not-at-height",
                             f"after a crash ({op.split()[0]} {mask}) in block {hh} the ledger reopens at height {c} with balance {skb} of a0, the balance as of that height is {want_bal}", op))
